@@ -248,6 +248,57 @@ def drive_default(chk, rng, thorough):
         if len({a1, a2}) < 2 or len({b1, b2}) < 2:
             continue
         conv_event({a1: e1, a2: e2}, {b1: e1, b2: e2})
+    # the same pair at exponents -1 then -2 on one registry (hash(-1) == hash(-2) in CPython: keys must not be hashes)
+    for _ in range(600 if thorough else 150):
+        c = rng.choice(classes)
+        a, b = rng.choice(c), rng.choice(c)
+        if a == b:
+            continue
+        for e in (rng.sample([-1, -2], 2)):
+            conv_event({a: e}, {b: e}, bridge=False)
+    # case-insensitive registry: a correctly cased spelling means the same unit as in the case-sensitive registry
+    uci = pint.UnitRegistry(non_int_type=F, case_sensitive=False)
+    psp_all = dict(defreg._cache["sp"][1])
+    lower_units = {}
+    for sp_k, cn_k in usp.items():
+        lower_units.setdefault(sp_k.lower(), set()).add(cn_k)
+    R_, _T = defreg.table()
+    upper = [p_ for p_ in prefixes if p_ != p_.lower() and len(p_) <= 2]          # M, G, T, P, E, Z, Y, Ki, Mi, ...
+    symbols = [d["symbol"] for n_, d in R_["units"].items() if d["symbol"] and d["symbol"].isidentifier() and usp.get(d["symbol"]) in cls_of]
+    for _ in range(1500 if thorough else 300):
+        pre = rng.choice(upper) if rng.random() < 0.7 else rng.choice(prefixes)
+        s_ = rng.choice(symbols) if rng.random() < 0.7 else rng.choice(spell)
+        full = pre + s_
+        if not full.isidentifier() or usp.get(s_) not in cls_of:
+            continue
+        try:
+            ureg.get_name(full)
+        except Exception:
+            continue
+        # only strings with a single case-insensitive reading (exact-case prefix + unit spelling up to letter case)
+        readings = set()
+        for i in range(len(full) + 1):
+            h, m_ = full[:i], full[i:]
+            if h in psp_all and m_.lower() in lower_units:
+                readings |= {(psp_all[h], cn_) for cn_ in lower_units[m_.lower()]}
+            if h in psp_all and m_.endswith("s") and len(m_) > 2 and m_[:-1].lower() in lower_units:
+                readings |= {(psp_all[h], cn_) for cn_ in lower_units[m_[:-1].lower()]}
+        if len(readings) != 1:
+            continue
+        tgt = rng.choice(cls_of[usp[s_]])
+        try:
+            with alarm(5):
+                r = uci.Quantity(F(1), full).to(tgt).magnitude
+        except CaseTimeout:
+            chk.skipped += 1
+            continue
+        except Exception as e:
+            chk.diverge({"clause": "case-insensitive-refuses-exact-spelling", "exc": type(e).__name__, "src": "default-registry"}, {"a": full, "b": tgt})
+            continue
+        if isinstance(r, (F, int)):
+            num, den = defreg.residues(r)
+            events.append({"ev": "conv", "a": defreg.cont({full: 1}), "b": defreg.cont({tgt: 1}), "res": "ok", "checkfactor": True,
+                           "num": num, "den": den, "pyexact": True, "casei": True})
     # path independence a -> b -> c = a -> c, and round trip (validated by the spec through fingerprints)
     for _ in range(2000 if thorough else 400):
         c = rng.choice(classes)
